@@ -109,13 +109,18 @@ def models():
     S2 = ((1.0, 0.0, 0.5), (0.0, 2.0, 0.0), (0.5, 0.0, 1.5))
     S3 = ((3.0, 1.0, 0.0), (1.0, 3.0, 1.0), (0.0, 1.0, 3.0))
     return {
-        "coef": ({"p": (1.0, -0.5, 2.5)}, m_coef),
-        "additive": ({"p": (1.0, -0.5, 2.5)}, m_add),
+        # index 0 is the value at which closures / caches are first built: 1.0 and 0.0 are the values around
+        # which algebraic simplifications fire
+        "coef": ({"p": (1.0, -0.5, 0.0)}, m_coef),
+        "coef-from-0": ({"p": (0.0, 2.5, 1.0)}, m_coef),
+        "additive": ({"p": (0.0, -0.5, 1.0)}, m_add),
         "hessian-entry": ({"p": (1.0, 2.0, 0.5)}, m_hess),
-        "exponent": ({"p": (2.0, 3.0, 1.5)}, m_exponent),
-        "inside-exp": ({"p": (0.5, 0.25, 1.0)}, m_inside),
-        "constraint-rhs": ({"p": (2.0, 1.0, 3.5)}, m_rhs),
-        "constraint-coef": ({"p": (1.0, 2.0, 0.5)}, m_concoef),
+        "exponent": ({"p": (1.0, 3.0, 2.0)}, m_exponent),
+        "exponent-from-2": ({"p": (2.0, 1.0, 1.5)}, m_exponent),
+        "exponent-from-0": ({"p": (0.0, 2.0, 3.0)}, m_exponent),
+        "inside-exp": ({"p": (1.0, 0.25, 0.0)}, m_inside),
+        "constraint-rhs": ({"p": (1.0, 2.0, 3.5)}, m_rhs),
+        "constraint-coef": ({"p": (1.0, 2.0, 0.0)}, m_concoef),
         "two-params": ({"p": (1.0, 2.0, 3.0), "q": (1.5, 0.5, 2.5)}, m_two),
         "linear-in-x": ({"p": (1.0, 3.0, -1.0), "q": (1.0, 2.0, 0.5)}, m_linear),
         "vector-elements": ({"P": ((1.0, 2.0, 3.0), (3.0, 0.5, 1.0), (0.0, 4.0, 2.0))}, m_vecelems),
@@ -327,7 +332,9 @@ class Driver:
                 tags["hess"] = None
             elif tags["hess"] is None:
                 tags["hess"] = cur
-        key = (tuple(sorted(idx.items())), tuple(sorted((k, repr(v)) for k, v in tags.items())))
+        from checks.c13 import hidden_state
+
+        key = (tuple(sorted(idx.items())), tuple(sorted((k, repr(v)) for k, v in tags.items())), hidden_state(P))
         return key, {"values": dict(idx)}, fails
 
 
